@@ -1,5 +1,7 @@
 import Mouette.Model.Operators
 import Mouette.Lemmas.OpLemmas
+import Mouette.Lemmas.MassEdges
+import Mouette.Lemmas.EdgeIncidence
 import Mouette.Generated.C08Idx
 /-
 C08 — discrete differential operators satisfy their defining identities.
@@ -338,9 +340,34 @@ theorem mass_total_tets (ar : Nat → Rat) (cells : List Face) (h : ∀ f ∈ ce
 theorem diagMass_total (ar : Nat → Rat) (n : Nat) : total (diagMass ar n) = sumAr ar n := by
   simp [total, diagMass, sumAr, List.map_map, Function.comp_def]
 
-/-- edge mass matrix: diagonal; the entry of an edge is `Σ area/3` over its at most two faces.
-   [full statement `total (massEdges ar faces es) = Σ area` needs the manifold edge/face incidence (each face has exactly three
-   edges in `es`); it is checked numerically by the oracle on every mesh] -/
+/-- **massEdges_total** (full statement): under manifold edge/face incidence — every face is met exactly three times when
+walking over both sides of every edge of the edge list, the decidable predicate `EdgeFaceIncidence`, re-checked by the harness on
+every mesh — the entries of `area_weight_matrix_edges` (each edge gets `area/3` from each of its ≤ 2 faces) sum to `Σ area` -/
+theorem massEdges_total (ar : Nat → Rat) (faces : List Face) (es : List (Nat × Nat)) (h : EdgeFaceIncidence faces es) :
+    total (massEdges ar faces es) = sumAr ar faces.length := massEdges_total' ar faces es h
+
+/-- the incidence predicate follows from the natural hypotheses: faces are triangles with distinct vertices, no directed side
+belongs to two faces (oriented manifold), and the edge list holds every undirected side exactly once -/
+theorem edgeFaceIncidence_of_manifold (faces : List Face) (es : List (Nat × Nat))
+    (hm : OrientedTriangulation faces) (he : EdgesAreSides faces es) : EdgeFaceIncidence faces es :=
+  Mouette.Ops.edgeFaceIncidence_of_manifold faces es hm he
+
+/-- **massEdges_total from the mesh hypotheses** (no incidence-count premise) -/
+theorem massEdges_total_of_manifold (ar : Nat → Rat) (faces : List Face) (es : List (Nat × Nat))
+    (hm : OrientedTriangulation faces) (he : EdgesAreSides faces es) :
+    total (massEdges ar faces es) = sumAr ar faces.length :=
+  Mouette.Ops.massEdges_total_of_manifold ar faces es hm he
+
+/-- under the oriented-manifold hypothesis `direct_face(x,y)` is THE face having the directed side `(x,y)` -/
+theorem directFace_eq_iff (faces : List Face) (hn : (allSides faces).Nodup) (x y t : Nat) (ht : t < faces.length) :
+    (directFace faces x y).map (·.1) = some t ↔ (x, y) ∈ sides (faces.getD t []) :=
+  Mouette.Ops.directFace_eq_iff faces hn x y t ht
+
+/-- the faces listed for an edge are faces of the mesh -/
+theorem edgeFaceList_in_range (faces : List Face) (e : Nat × Nat) : ∀ t ∈ edgeFaceList faces e, t < faces.length :=
+  edgeFaceList_lt faces e
+
+/-- an edge has at most two faces -/
 theorem massEdges_total_le_partial (faces : List Face) (e : Nat × Nat) : (edgeFaceList faces e).length ≤ 2 := by
   unfold edgeFaceList
   rcases edgeFaces faces e with ⟨a, b⟩
@@ -496,10 +523,38 @@ theorem lapTet_row_sums_zero (cells : List (List Nat)) (i : Nat) : rowSum (lapTe
     rw [key]
     by_cases h : k = i <;> simp [h]
 
+/-! ## `volume_laplacian`: `mat[I,I] += ω; mat[J,J] += ω; mat[I,J] = −ω; mat[J,I] = −ω` once per edge `e = (I,J)`,
+`ω_e = Σ_{cells ∋ e} |KL| · |cot dihedral| / 6` (the per-cell terms are `volLapTerms` in the model, compared value by value with the
+scipy matrix). Whatever the weights `ω`, the matrix is the block sum over the edge list: -/
+
+/-- the volume Laplacian as the edge-block sum over the numbered edge list with weights `ω : edge id → ℚ` -/
+theorem volLap_symmetric (es : List (Nat × Nat)) (ω : Nat → Rat) (i j : Nat) :
+    toFun (blocks ((List.zipIdx es).map (fun p => (p.1.1, p.1.2, ω p.2)))) i j
+      = toFun (blocks ((List.zipIdx es).map (fun p => (p.1.1, p.1.2, ω p.2)))) j i := blocks_symmetric _ i j
+
+theorem volLap_row_sums_zero (es : List (Nat × Nat)) (ω : Nat → Rat) (i : Nat) :
+    rowSum (blocks ((List.zipIdx es).map (fun p => (p.1.1, p.1.2, ω p.2)))) i = 0 := blocks_row_sums_zero _ i
+
+/-- with non-negative weights (the code takes `|cot|`) the volume Laplacian is positive semi-definite: `xᵀ L x = Σ_e ω_e (x_I − x_J)² ≥ 0` -/
+theorem blocks_quad_nonneg (bs : List (Nat × Nat × Rat)) (h : ∀ b ∈ bs, 0 ≤ b.2.2) (x : Nat → Rat) : 0 ≤ quad (blocks bs) x := by
+  induction bs with
+  | nil => simp [blocks, quad, rsum]
+  | cons b bs ih =>
+    rw [blocks_cons, quad_append, quad_edgeBlock]
+    have h1 := ih (fun b' hb' => h b' (List.mem_cons_of_mem _ hb'))
+    have h2 := h b (by simp)
+    have h3 : 0 ≤ (x b.1 - x b.2.1) ^ 2 := by positivity
+    have := mul_nonneg h2 h3
+    linarith
+
 /-! ## non-vacuity -/
 example : toFun (laplacian (fun _ => 1/2) [(0, 1, 2)]) 0 0 = 1 := by
   norm_num [laplacian, lapS, lapSAux, faceLapS, edgeBlockS, eval, toFun, rsum]
 example : norm2 (cross (sub (⟨1,0,0⟩ : V3) ⟨0,0,0⟩) (sub ⟨0,1,0⟩ ⟨0,0,0⟩)) ≠ 0 := by norm_num [norm2, dot, cross, sub]
 example : nablaRow [[0, 1, 2], [1, 0, 3]] (0, 1) = [(0, -1), (1, 1)] := by decide
+example : EdgeFaceIncidence [[0, 1, 2], [1, 0, 3]] [(0, 1), (1, 2), (0, 2), (0, 3), (1, 3)] := by decide
+example : (allSides [[0, 1, 2], [1, 0, 3]]).Nodup ∧
+    ∀ s ∈ allSides [[0, 1, 2], [1, 0, 3]], [(0, 1), (1, 2), (0, 2), (0, 3), (1, 3)].count s
+      + [(0, 1), (1, 2), (0, 2), (0, 3), (1, 3)].count (swapP s) = 1 := by decide
 
 end Mouette.Props.C08
